@@ -108,6 +108,15 @@ pub fn record_c13(_args: &Args, mut out: Out) -> usize {
                 let mut bad: Vec<(String, i32, usize)> = vec![];
                 for w in (4 * t)..(4 * t + 4) {
                     let warm = format!("{}{}", RANK_CH[w / 4], suit_ch[w % 4]);
+                    // the empty string and every one-character string right after the card text: none of them is a card
+                    for a in 0u16..129 {
+                        let s = if a == 128 { String::new() } else { (a as u8 as char).to_string() };
+                        let _ = guarded(|| warm.parse::<Card>().is_ok());
+                        let r = guarded(|| s.parse::<Card>().map(|c| card_id(&c) as i32).unwrap_or(-1)).unwrap_or(-2);
+                        if r != -1 && bad.len() < 5 {
+                            bad.push((s.clone(), r, w));
+                        }
+                    }
                     for a in 0u8..128 {
                         for b in 0u8..128 {
                             let s = format!("{}{}", a as char, b as char);
@@ -130,6 +139,49 @@ pub fn record_c13(_args: &Args, mut out: Out) -> usize {
                 out.line(&format!("{{\"op\":\"cparse\",\"s\":{},\"out\":{},\"after\":{}}}", codes(&s), r, w));
             }
         }
+    }
+    // eight threads converting words to cards and back at the same time, every word three times in a row: a conversion whose
+    // result is not the card of its bit is logged as one more u2c / c2u event (judged like the others); `convsum` says how many were made
+    {
+        let threads = 8usize;
+        let rounds = 40_000usize;
+        let barrier = std::sync::Arc::new(std::sync::Barrier::new(threads));
+        let mut hs = vec![];
+        for t in 0..threads {
+            let barrier = barrier.clone();
+            hs.push(std::thread::spawn(move || {
+                barrier.wait();
+                let mut bad_u2c: Vec<(usize, i32)> = vec![];
+                let mut bad_c2u: Vec<(usize, u32, u32)> = vec![];
+                for r in 0..rounds {
+                    let id = (r * 7 + t * 13) % 52;
+                    for _ in 0..3 {
+                        let back = guarded(move || card_id(&Card::from(&(1u64 << id))) as i32).unwrap_or(-2);
+                        if back != id as i32 && bad_u2c.len() < 3 {
+                            bad_u2c.push((id, back));
+                        }
+                        let w = guarded(move || u64::from(&card(id))).unwrap_or(0);
+                        if w != 1u64 << id && bad_c2u.len() < 3 {
+                            bad_c2u.push((id, w.count_ones(), w.trailing_zeros()));
+                        }
+                    }
+                }
+                (bad_u2c, bad_c2u)
+            }));
+        }
+        let mut nbad = 0;
+        for h in hs {
+            let (b1, b2) = h.join().unwrap();
+            for (id, back) in b1 {
+                nbad += 1;
+                out.line(&format!("{{\"op\":\"u2c\",\"bit\":{},\"out\":{},\"threads\":{}}}", id, back, threads));
+            }
+            for (id, pop, tz) in b2 {
+                nbad += 1;
+                out.line(&format!("{{\"op\":\"c2u\",\"id\":{},\"pop\":{},\"tz\":{},\"threads\":{}}}", id, pop, tz, threads));
+            }
+        }
+        out.line(&format!("{{\"op\":\"convsum\",\"threads\":{},\"conversions\":{},\"deviating\":{}}}", threads, threads * rounds * 6, nbad));
     }
     // ranks and suits: numbers, characters, text, successor / predecessor
     for (i, r) in RANKS.iter().enumerate() {
